@@ -159,12 +159,12 @@ Qed.
 (* ------------------------------------------------------------------ enqueue *)
 Lemma enqueue_inv s k : Inv s -> Inv (fst (enqueue s k)).
 Proof.
-  intros HI. unfold enqueue. destruct (closed s) eqn:Hc; [exact HI|].
+  intros HI. unfold enqueue; rewrite ?check2_eq. destruct (closed s) eqn:Hc; [exact HI|].
   pose proof (conservation_facts s HI Hc) as (Hnd & Hrange & Hsum).
   pose proof (inv_len s HI) as Hlen. pose proof (inv_cons s HI Hc) as HP.
   destruct (Z.eqb_spec k 0) as [->|Hk].
   - destruct (pool s) as [|id rest] eqn:Hp; [exact HI|].
-    rewrite check_set_pool. destruct (check s id) as [e|] eqn:Hck; cbn [fst].
+    rewrite ?check2_eq, check_set_pool. destruct (check s id) as [e|] eqn:Hck; cbn [fst].
     + (* refused: the id goes back to the end of the queue *)
       unfold release. cbn [set_pool pool cfgN].
       assert (Hroom : zlen rest <? cfgN s = true).
@@ -376,14 +376,14 @@ Proof. intros (ops0 & ->). exists (ops0 ++ ops). now rewrite run_app. Qed.
 Lemma step_cfg s o : let s' := fst (step s o) in cfgN s' = cfgN s /\ cfgP s' = cfgP s /\ cfgT s' = cfgT s.
 Proof.
   destruct o; cbn [step].
-  - unfold enqueue. destruct (closed s); [auto|]. destruct (k =? 0).
-    + destruct (pool s); [auto|]. destruct (check _ _); cbn [fst]; [|auto]. unfold release. destruct (_ <? _); auto.
-    + destruct (check _ _); auto.
-  - unfold csend, enqueue. destruct (closed s); [auto|]. destruct (k =? 0).
-    + destruct (pool s); [auto|]. destruct (check _ _); cbn [fst].
+  - unfold enqueue; rewrite ?check2_eq. destruct (closed s); [auto|]. destruct (k =? 0).
+    + destruct (pool s); [auto|]. rewrite ?check2_eq; destruct (check _ _); cbn [fst]; [|auto]. unfold release. destruct (_ <? _); auto.
+    + rewrite ?check2_eq; destruct (check _ _); auto.
+  - unfold csend, enqueue; rewrite ?check2_eq. destruct (closed s); [auto|]. destruct (k =? 0).
+    + destruct (pool s); [auto|]. rewrite ?check2_eq; destruct (check _ _); cbn [fst].
       * unfold release. destruct (_ <? _); auto.
       * destruct (_ <? _); auto.
-    + destruct (check _ _); [auto|]. destruct (_ <? _); auto.
+    + rewrite ?check2_eq; destruct (check _ _); [auto|]. destruct (_ <? _); auto.
   - unfold ctake. destruct (outq s); auto.
   - unfold deliver. destruct (closed s); [auto|]. destruct (lookup _ _); [|auto]. destruct last.
     + destruct (managed r).
